@@ -795,10 +795,36 @@ func (r *Run) checkClosureRequires(st *State, fr *Frame, f *Closure, args []Val,
 	e := r.e
 	name := e.fnName[f.Fn]
 	blk := e.cs.Funcs[name]
-	if blk == nil || len(blk.All("requires")) == 0 {
+	if blk == nil || (len(blk.All("requires")) == 0 && len(blk.All("holds")) == 0) {
 		return
 	}
 	vars := e.contractVars(f.Fn, args)
+	for _, cl := range blk.All("holds") {
+		// a lock handed over to the new goroutine must be held where it is started
+		px, err := parseSpec(cl.Expr)
+		if err != nil {
+			continue
+		}
+		c := e.specCtx(st, nil)
+		for i, fv := range f.Fn.FreeVars {
+			if i < len(f.Binds) {
+				if a, ok := f.Binds[i].(*Addr); ok && a.Kind == ACell {
+					c.vars[fv.Name()] = SV{V: st.Cells[a.Cell], T: a.Cell.Typ}
+				} else if t, ok := f.Binds[i].(T); ok {
+					c.vars[fv.Name()] = SV{V: t, T: fv.Type()}
+				}
+			}
+		}
+		goal := False
+		if key, ok := c.eval(px).V.(T); ok {
+			var ds []T
+			for _, l := range st.Locks {
+				ds = append(ds, Eq(l.Key, key))
+			}
+			goal = Or(ds...)
+		}
+		e.emitWith(st, fmt.Sprintf("%s/requires@%s:%s:holds", e.fnName[fr.Fn], how, name), "", nil, goal, "lock handed over to "+name+" is held: "+cl.Expr, e.posOf(in), []string{"C11"}, cl)
+	}
 	for _, cl := range blk.All("requires") {
 		px, err := parseSpec(cl.Expr)
 		if err != nil {
